@@ -63,7 +63,7 @@ MANIFEST = dict(
     '(edits, several objects, bootstrap, quick_estimate) against the closed form of the current table and Sess.run / reportedLoglike; Database.split against dbSplit.',
     design='DESIGN.md §5 C04',
     technique='Lean 4 theorems (core + Mathlib sums) over an executable model of the row partition and accumulation + differential correspondence with real BIOGEME runs',
-    note='KNOWN FINDING F-C04-4: Database.split without groups slices a frame with float row labels by label (KeyError, or rows lost silently; proposed_fixes/F-C04-4.diff). KNOWN FINDING F-C04-3: an object built BEFORE its Database was edited (scale_column / add_column / remove) keeps the table of its construction in the engine: stale log likelihood, '
+    note='KNOWN FINDING F-C04-4: Database.split without groups slices a frame with float row labels by label (KeyError, or rows lost silently; found by this check, repaired in /repo by 962041c). KNOWN FINDING F-C04-3: an object built BEFORE its Database was edited (scale_column / add_column / remove) keeps the table of its construction in the engine: stale log likelihood, '
     'scaled = stale sum / current size, simulate out of bounds (proposed_fixes/F-C04-3.diff); session_loglike is therefore PARTIAL (guard: object in step with the table). '
     'PARTIAL: thread schedules / data races cannot be exhibited (the model uses one accumulator per thread, added after join, as read in biogeme.cc); '
     'the C++ engine is modelled, not verified; float addition is not associative (oracle tolerance 1e-10*N*max|term|).',
